@@ -25,3 +25,49 @@ func init() {
 		return nil
 	}
 }
+
+func init() {
+	commands["dbgperm"] = func(args []string) error {
+		c := loadCorpus()
+		for _, cc := range c.Certs {
+			if cc.File != args[0] {
+				continue
+			}
+			der2, n, err := permuteGeneralNames(cc.DER, oidSAN, func(n int) []int { p := make([]int, n); for i := range p { p[i] = n - 1 - i }; return p })
+			fmt.Println(n, err, len(cc.DER), len(der2))
+			c2, err := zx509ParseForDebug(der2)
+			fmt.Println(err)
+			if c2 != nil {
+				fmt.Println(cc.Cert.NotBefore, c2.NotBefore, cc.Cert.DNSNames, c2.DNSNames, cc.Cert.Version, c2.Version, len(cc.Cert.Extensions), len(c2.Extensions))
+			}
+		}
+		return nil
+	}
+}
+
+func init() {
+	commands["dbgperm2"] = func(args []string) error {
+		c := loadCorpus()
+		for _, cc := range c.Certs {
+			if cc.File != args[0] {
+				continue
+			}
+			der2, _, _ := permuteGeneralNames(cc.DER, oidSAN, func(n int) []int { p := make([]int, n); for i := range p { p[i] = n - 1 - i }; return p })
+			c2, _ := zx509ParseForDebug(der2)
+			a, b := statusVector(cc.Cert), statusVector(c2)
+			for n, s := range a {
+				if b[n] != s {
+					fmt.Println(n, s, b[n])
+				}
+			}
+			c3, _ := zx509ParseForDebug(cc.DER)
+			a3 := statusVector(c3)
+			for n, s := range a {
+				if a3[n] != s {
+					fmt.Println("reparse differs", n, s, a3[n])
+				}
+			}
+		}
+		return nil
+	}
+}
